@@ -121,6 +121,55 @@ Example check_sig_ex :
   check_sig (mkS [[97];[101;120]] [[97];[69;88]] true [[101;120]] 1 1 3 1000 1100 900 [[101;120]] 13 13 7 7 true true) = false.   (* labels > owner labels *)
 Proof. vm_compute. repeat split. Qed.
 
+(* ------------------------------------------------------------ the signature cache and the clock *)
+Theorem check_sig_cached_time_sound : sig_cache_checks_time_first = true -> forall c s,
+  check_sig_cached c s = true -> sig_time_ok (s_now s) (s_inception s) (s_expiration s) = true.
+Proof.
+  intros X c s. unfold check_sig_cached. rewrite X.
+  destruct (sig_time_ok (s_now s) (s_inception s) (s_expiration s)); [reflexivity|discriminate].
+Qed.
+
+Theorem revalidate_sound : sig_cache_checks_time_first = true -> forall n1 n2 i e,
+  revalidate n1 n2 i e = Ok true -> sig_time_ok n2 i e = true.
+Proof.
+  intros X n1 n2 i e. unfold revalidate. rewrite X.
+  destruct (sig_time_ok n2 i e); [reflexivity|]. cbn. discriminate.
+Qed.
+
+(* a cache that is trusted without looking at the clock accepts an expired signature
+   (or, with a checked u32 subtraction in ttl_for_sig, panics) *)
+Theorem revalidate_refuted : sig_cache_checks_time_first = false -> sig_time_is_canonical = false ->
+  exists n1 n2 i e, sig_time_ok n2 i e = false /\
+    (revalidate n1 n2 i e = Ok true \/ exists p, revalidate n1 n2 i e = Panic p).
+Proof.
+  intros X Y. exists 1000, 1010, 900, 1002. unfold revalidate, sig_time_ok, ttl_until_expired. rewrite X, Y.
+  split; [vm_compute; reflexivity|].
+  destruct ttl_for_sig_wraps; [left|right; exists 1]; vm_compute; reflexivity.
+Qed.
+
+(* with the clock consulted first, ttl_for_sig cannot underflow before the clock
+   itself reaches 2^31 (19 January 2038); a wrapping subtraction never does *)
+Theorem revalidate_total : sig_cache_checks_time_first = true -> sig_time_is_canonical = false ->
+  forall n1 n2 i e, u32 n2 -> u32 i -> u32 e ->
+  (ttl_for_sig_wraps = true \/ n2 < 2147483648) -> no_panic (revalidate n1 n2 i e).
+Proof.
+  intros X Y n1 n2 i e Hn Hi He W. unfold revalidate. rewrite X.
+  destruct (sig_time_ok n2 i e) eqn:T; cbn [negb andb]; [|exact I].
+  destruct (sig_time_ok n1 i e); [|exact I].
+  unfold ttl_until_expired. destruct ttl_for_sig_wraps; [exact I|].
+  destruct W as [W|W]; [discriminate|].
+  apply (sig_time_ok_spec Y n2 i e Hn Hi He) in T. destruct T as [T _].
+  unfold u32_sub. destruct (N.leb_spec n2 e); [exact I|].
+  exfalso. unfold rfc_lt in T. lia.
+Qed.
+
+Theorem ttl_underflow_refuted : ttl_for_sig_wraps = false ->
+  exists now exp, now < 4294967296 /\ exp < 4294967296 /\ rfc_lt now exp /\ ttl_until_expired now exp = Panic 1.
+Proof.
+  intros X. exists 4294967000, 100. unfold ttl_until_expired. rewrite X.
+  split; [reflexivity|]. split; [reflexivity|]. split; [unfold rfc_lt; right; lia|reflexivity].
+Qed.
+
 (* wildcard_closest_encloser: Some exactly when the labels field is below the owner's count *)
 Theorem wildcard_ce_spec owner labels :
   match wildcard_closest_encloser owner labels with
